@@ -71,7 +71,7 @@ def eval_in_slot(slot, sid, checks, tier, jobs_each):
                 if l.startswith('  violation:') and i + 1 < len(lines):
                     what = lines[i + 1].strip()[:300]
                     break
-            res[c] = {'rc': p.returncode, 'violation_lines': nviol, 'first': first[:200], 'what': what, 'wall_s': round(time.time() - t0, 1)}
+            res[c] = {'rc': p.returncode, 'tier': tier, 'violation_lines': nviol, 'first': first[:200], 'what': what, 'wall_s': round(time.time() - t0, 1)}
             if p.returncode == 2:
                 res[c]['machinery'] = (p.stderr or '')[-500:]
     finally:
